@@ -27,6 +27,19 @@ const DBG: bool = cfg!(debug_assertions);
 const PATH: u64 = if cfg!(all(target_arch = "x86_64", target_feature = "bmi2")) { 0 } else { 1 };
 const MAX: usize = usize::MAX;
 
+// numeric argument as a Coq term: the three huge extremes by the names defined in coq/Check/C08.v
+fn nz(x: usize) -> String {
+    if x == MAX {
+        "MX".to_string()
+    } else if x == MAX - 1 {
+        "MX1".to_string()
+    } else if x == 1usize << 63 {
+        "H63".to_string()
+    } else {
+        format!("{}", x)
+    }
+}
+
 // kinds of the unmodelled batches (COther / CDied)
 const K_BV: u64 = 0;
 const K_SPARSE: u64 = 1;
@@ -372,7 +385,7 @@ fn istep_terms(steps: &[(u8, usize, Res<String>)]) -> String {
         if i > 0 {
             s.push_str("; ");
         }
-        let _ = write!(s, "({}, {}, {})", op, n, ires(r, |x| x.clone()));
+        let _ = write!(s, "({}, {}, {})", op, nz(*n), ires(r, |x| x.clone()));
     }
     s.push(']');
     s
@@ -397,21 +410,21 @@ fn bv_calls(rng: &mut Rng, bv: &BitVector, pairs: bool, nrandom: usize) -> BvCal
     for i in extremes(len) {
         mark(&format!("BitVector(len={}).get/rank/rank_zero({})", len, i));
         let r = catch(|| bv.get(i));
-        c.push(format!("BGet {} {}", i, ires(&r, |x| b(*x))), format!("get({})", i), &[class_of(&r)]);
+        c.push(format!("BGet {} {}", nz(i), ires(&r, |x| b(*x))), format!("get({})", i), &[class_of(&r)]);
         let r = catch(|| bv.rank(i));
-        c.push(format!("BRank {} {}", i, ires(&r, |x| nu(*x))), format!("rank({})", i), &[class_of(&r)]);
+        c.push(format!("BRank {} {}", nz(i), ires(&r, |x| nu(*x))), format!("rank({})", i), &[class_of(&r)]);
         let r = catch(|| bv.rank_zero(i));
-        c.push(format!("BRank0 {} {}", i, ires(&r, |x| nu(*x))), format!("rank_zero({})", i), &[class_of(&r)]);
+        c.push(format!("BRank0 {} {}", nz(i), ires(&r, |x| nu(*x))), format!("rank_zero({})", i), &[class_of(&r)]);
     }
     for r0 in extremes(ones) {
         mark(&format!("BitVector(len={}).select({})", len, r0));
         let r = catch(|| bv.select(r0));
-        c.push(format!("BSel false {} {}", r0, ires(&r, |x| opt(x, |v| nu(*v)))), format!("select({})", r0), &[class_of(&r)]);
+        c.push(format!("BSel false {} {}", nz(r0), ires(&r, |x| opt(x, |v| nu(*v)))), format!("select({})", r0), &[class_of(&r)]);
     }
     for r0 in extremes(zeros) {
         mark(&format!("BitVector(len={}).select_zero({})", len, r0));
         let r = catch(|| bv.select_zero(r0));
-        c.push(format!("BSel true {} {}", r0, ires(&r, |x| opt(x, |v| nu(*v)))), format!("select_zero({})", r0), &[class_of(&r)]);
+        c.push(format!("BSel true {} {}", nz(r0), ires(&r, |x| opt(x, |v| nu(*v)))), format!("select_zero({})", r0), &[class_of(&r)]);
     }
     // iterators over set / unset bits from the four sources
     let iter_case = |c: &mut BvCalls, src: u64, z: bool, arg: usize, ops: &[Op]| {
@@ -434,7 +447,7 @@ fn bv_calls(rng: &mut Rng, bv: &BitVector, pairs: bool, nrandom: usize) -> BvCal
         };
         let mut classes: Vec<u64> = vec![class_of(&opened)];
         classes.extend(steps.iter().map(|s| class_of(&s.2)));
-        c.push(format!("BIter {} {} {} {} {}", src, b(z), arg, ires(&opened, |_| "tt".to_string()), istep_terms(&steps)),
+        c.push(format!("BIter {} {} {} {} {}", src, b(z), nz(arg), ires(&opened, |_| "tt".to_string()), istep_terms(&steps)),
             format!("{}:{}", name, seq_desc(ops)), &classes);
     };
     for z in [false, true] {
@@ -469,10 +482,12 @@ fn bv_calls(rng: &mut Rng, bv: &BitVector, pairs: bool, nrandom: usize) -> BvCal
 
 fn emit_bv(out: &mut Out, bits: &[bool], sup: u64, loaded: bool, c: BvCalls) {
     let words = to_words(bits);
-    let chunk = if bits.len() > 2048 { 400 } else { 60 };
+    // small vectors: small cases (a failing case names few calls); large ones: one case, so that the model
+    // builds the supports once
+    let chunk = if bits.len() > 2048 { usize::MAX } else if bits.len() > 512 { 200 } else { 60 };
     let mut i = 0;
     while i < c.terms.len() {
-        let j = std::cmp::min(c.terms.len(), i + chunk);
+        let j = std::cmp::min(c.terms.len(), i.saturating_add(chunk));
         let term = format!("CBV {} {} {} {} {} [{}]", PATH, b(DBG), sup, bits.len(), nlist(&words), c.terms[i..j].join("; "));
         let mut js = String::new();
         let mut hits = String::new();
@@ -538,23 +553,23 @@ fn raw_batch(out: &mut Out, rng: &mut Rng, bits: &[bool]) {
         };
         for i in extremes(len) {
             let r = catch(|| rv.bit(i));
-            add(format!("RBit {} {}", i, ires(&r, |x| b(*x))), format!("bit({})", i), class_of(&r));
+            add(format!("RBit {} {}", nz(i), ires(&r, |x| b(*x))), format!("bit({})", i), class_of(&r));
             for v in [false, true] {
                 let r = catch(|| { let mut c = rv.clone(); c.set_bit(i, v); });
-                add(format!("RSetBit {} {} {}", i, b(v), ires(&r, |_| "tt".to_string())), format!("set_bit({},{})", i, v), class_of(&r));
+                add(format!("RSetBit {} {} {}", nz(i), b(v), ires(&r, |_| "tt".to_string())), format!("set_bit({},{})", i, v), class_of(&r));
             }
             // the unsafe fns inside their documented precondition (width <= 64), at every offset
             for w in [1usize, 7, 63, 64] {
                 let r = catch(|| unsafe { rv.int(i, w) });
-                add(format!("RInt {} {} {}", i, w, ires(&r, |x| n(*x))), format!("int({},{})", i, w), class_of(&r));
+                add(format!("RInt {} {} {}", nz(i), w, ires(&r, |x| n(*x))), format!("int({},{})", i, w), class_of(&r));
                 let val = rng.next();
                 let r = catch(|| { let mut c = rv.clone(); unsafe { c.set_int(i, val, w); } });
-                add(format!("RSetInt {} {} {} {}", i, val, w, ires(&r, |_| "tt".to_string())), format!("set_int({},{},{})", i, val, w), class_of(&r));
+                add(format!("RSetInt {} {} {} {}", nz(i), val, w, ires(&r, |_| "tt".to_string())), format!("set_int({},{},{})", i, val, w), class_of(&r));
             }
         }
         for i in extremes(words.len()) {
             let r = catch(|| rv.word(i));
-            add(format!("RWord {} {}", i, ires(&r, |x| n(*x))), format!("word({})", i), class_of(&r));
+            add(format!("RWord {} {}", nz(i), ires(&r, |x| n(*x))), format!("word({})", i), class_of(&r));
         }
         for w in [0usize, 1, 13, 64] {
             let val = rng.next();
@@ -622,12 +637,12 @@ fn iv_batch(out: &mut Out, rng: &mut Rng, width: usize, nitems: usize) {
         }
         for i in extremes(len) {
             let r = fix(catch(|| v.get(i)));
-            add(format!("IGet {} {}", i, ires(&r, |x| n(*x))), format!("get({})", i), class_of(&r));
+            add(format!("IGet {} {}", nz(i), ires(&r, |x| n(*x))), format!("get({})", i), class_of(&r));
             let r = fix(catch(|| v.get_or(i, 77)));
-            add(format!("IGetOr {} 77 {}", i, ires(&r, |x| n(*x))), format!("get_or({},77)", i), class_of(&r));
+            add(format!("IGetOr {} 77 {}", nz(i), ires(&r, |x| n(*x))), format!("get_or({},77)", i), class_of(&r));
             for val in [0u64, !0u64] {
                 let r = fix(catch(|| { let mut c = v.clone(); c.set(i, val); }));
-                add(format!("ISet {} {} {}", i, val, ires(&r, |_| "tt".to_string())), format!("set({},{})", i, val), class_of(&r));
+                add(format!("ISet {} {} {}", nz(i), val, ires(&r, |_| "tt".to_string())), format!("set({},{})", i, val), class_of(&r));
             }
         }
         for val in [0u64, 1, !0u64] {
@@ -1043,7 +1058,7 @@ pub fn run(rng: &mut Rng, out: &mut Out, thorough: bool, variant: &str) {
         (200, Style::Half, 0, false), (200, Style::Half, 1, false), (300, Style::Sparse(7), 2, false), (300, Style::Dense(50), 5, false),
         (4160, Style::Ones, 7, false), (9000, Style::Dense(50), 7, false), (9000, Style::Sparse(50), 7, false),
     ];
-    let extra = if thorough { 40 } else { 4 };
+    let extra = if thorough { 30 } else { 4 };
     for _ in 0..extra {
         let len = if rng.below(3) == 0 { *rng.pick(&BOUNDARY_LENS[..25]) } else { rng.below(1500) as usize };
         let sup = if rng.below(4) == 0 { rng.below(8) } else { 7 };
@@ -1054,7 +1069,7 @@ pub fn run(rng: &mut Rng, out: &mut Out, thorough: bool, variant: &str) {
         specs.push((20000, Style::Zeros, 7, false));
         specs.push((20000, Style::Ones, 7, false));
     }
-    let nrandom = if thorough { 120 } else { 24 };
+    let nrandom = if thorough { 80 } else { 24 };
     for (len, style, sup, pairs) in specs.iter() {
         let bits = gen_bits(rng, *len, *style);
         let seed = rng.next();
